@@ -881,6 +881,14 @@ func (c *Conn) dispatch(fr *FrameHeader) bool {
 			}
 		}
 
+		// DATA for a request that was cancelled or timed out is dropped, but it
+		// has used the connection window like any other: the server may not
+		// have seen the RST_STREAM yet, and window that is not handed back here
+		// is gone for every other request on the connection.
+		if fr.Type() == FrameData {
+			c.creditConnWindow(fr.Len())
+		}
+
 		return false
 	}
 
@@ -1556,27 +1564,37 @@ func (c *Conn) readStream(fr *FrameHeader, res *fasthttp.Response) (err error) {
 		err = NewResetStreamError(
 			fr.Body().(*RstStream).Code(), "stream reset by the server")
 	case FrameData:
-		c.currentWindow -= int32(fr.Len())
-		currentWin := c.currentWindow
-
 		data := fr.Body().(*Data)
 		if data.Len() != 0 {
 			res.AppendBody(data.Data())
+		}
 
-			// let's send the window update
+		// The whole payload counts against the window, padding included (RFC
+		// 7540 6.9.1), so the whole payload is what goes back. Tying the
+		// credit to the data alone meant a padded frame with no data in it was
+		// never given back, and enough of them closed the stream's window for
+		// good. A stream the server has just ended needs no more credit.
+		if fr.Len() != 0 && !fr.Flags().Has(FlagEndStream) {
 			c.updateWindow(fr.Stream(), fr.Len())
 		}
 
-		if currentWin < c.maxWindow/2 {
-			nValue := c.maxWindow - currentWin
-
-			c.currentWindow = c.maxWindow
-
-			c.updateWindow(0, int(nValue))
-		}
+		c.creditConnWindow(fr.Len())
 	}
 
 	return err
+}
+
+// creditConnWindow accounts for a DATA frame against the connection-level
+// receive window and tops the window up once half of it is used. Read loop only.
+func (c *Conn) creditConnWindow(n int) {
+	c.currentWindow -= int32(n)
+	if c.currentWindow < c.maxWindow/2 {
+		nValue := c.maxWindow - c.currentWindow
+
+		c.currentWindow = c.maxWindow
+
+		c.updateWindow(0, int(nValue))
+	}
 }
 
 func (c *Conn) updateWindow(streamID uint32, size int) {
